@@ -1,4 +1,4 @@
-import os, sys; ROOT = os.environ.get("JOBLIB_ROOT", "/tmp/wt_u3"); sys.path.insert(0, ROOT); os.environ["PYTHONPATH"] = ROOT + os.pathsep + os.environ.get("PYTHONPATH", "")
+import os, sys; ROOT = os.environ.get("JOBLIB_ROOT", "/repo"); sys.path.insert(0, ROOT); os.environ["PYTHONPATH"] = ROOT + os.pathsep + os.environ.get("PYTHONPATH", "")
 """U3-01 (C03 / C19) - needs numpy.
 
 Input: a compressor registered the way joblib's own test-suite and the
